@@ -30,7 +30,7 @@ type Read struct {
 	BaseCT  string // Content-Type the writer set
 	Coding  string // actual coding of the body: "" | gzip | deflate
 	Level   int    // gzip level
-	Status  string // good | trunc | trailer | flip | checksum | magic | stored-flip | empty | garbage | extra
+	Status  string // good | trunc | trailer | flip | checksum | magic | stored-flip | empty | garbage | extra | member2
 	CT      string // Content-Type sent
 	CTClass string
 	CE      string // Content-Encoding sent
@@ -191,6 +191,11 @@ func breakBody(r *rng.R, status string, good []byte, written []byte) []byte {
 		return g
 	case "extra":
 		return append(b, []byte("}]>\x00 trailing")[:1+r.Intn(13)]...)
+	case "member2": // the good body followed by a cut copy of itself: a gzip reader goes on into the second member and ends in an error
+		if len(b) > 1 {
+			return append(b, good[:1+r.Intn(len(good)-1)]...)
+		}
+		return b
 	}
 	return b
 }
@@ -272,7 +277,7 @@ func GenRead(r *rng.R, extras bool) (Read, error) {
 	good := Encode(rd.Coding, rd.Level, rd.Written)
 	rd.Status = "good"
 	if r.Chance(2, 5) {
-		rd.Status = []string{"trunc", "trunc", "trailer", "trailer", "flip", "flip", "checksum", "magic", "stored-flip", "empty", "garbage", "extra"}[r.Intn(12)]
+		rd.Status = []string{"trunc", "trunc", "trailer", "trailer", "flip", "flip", "checksum", "magic", "stored-flip", "empty", "garbage", "extra", "member2"}[r.Intn(13)]
 		if rd.Status == "stored-flip" && rd.Coding == "gzip" {
 			rd.Level = gzip.NoCompression
 			good = Encode(rd.Coding, rd.Level, rd.Written)
